@@ -112,6 +112,7 @@ def run(F, rep):
     alpha_rules(F, rep, "C09")
     back_rules(F, rep)
     pred_rules(F, rep)
+    empty_rules(F, rep)
 
 
 def back_rules(F, rep, pid="C09"):
@@ -213,6 +214,40 @@ def back_rules(F, rep, pid="C09"):
            site="%s:%d" % (fm.file, fm.line_lo), key=R + " | matcher honours budget")
 
 
+def empty_rules(F, rep, pid="C09"):
+    """An empty encoding means "the target is the reference" to every reader: the encoder may return without having
+    emitted anything only under a test that the two have the same length and the same content."""
+    R = pid + "-EMPTY" if pid != "C01" else "C01-LZEMPTY"
+    enc = F.funcs.get(LZ + "encode")
+    if not rep.floor(R, 1 if enc else 0, 1, "LZDiff::encode"):
+        return
+    ex = Exprs(enc)
+    g = cfg_of(enc)
+    emit = {bi for bi, t in enc.calls() if not t.get("indirect") and t["callee"].startswith(LZ + "encode_")}
+    heads = {h for h, body in g.loops()}
+    n = 0
+    for bi, b in enumerate(enc.blocks):
+        if b["cleanup"] or bi not in g.reach:
+            continue
+        for s in b["stmts"]:
+            if not (s["k"] == "assign" and s["pl"]["l"] == 0 and not s["pl"]["p"]):
+                continue
+            # can an emitter or a loop have run before this return?
+            before = {x for x in g.reach if bi in g.reachable_from(x)}
+            if before & emit or before & heads:
+                continue
+            n += 1
+            conds = [(strip_tags(c[0]), cond_bool(c[1], c[2])) for c in dominating_conds(enc, bi, ex)]
+            same_len = any(v is True and isinstance(c, tuple) and c[0] == "bin" and c[1] == "Eq" and "len(target)" in fmt(c) and "reference_len" in fmt(c) for c, v in conds)
+            same_content = any(v is True and isinstance(c, tuple) and c[0] == "call" and re.search(r"Iterator>?::all$|PartialEq.*::eq$|::eq$|::starts_with$", c[1])
+                               and "target" in fmt(c) and "reference" in fmt(c) for c, v in conds)
+            slice_eq = any(v is True and isinstance(c, tuple) and c[0] == "call" and re.search(r"PartialEq.*::eq$|::eq$", c[1]) and "target" in fmt(c) and "reference_len" in fmt(c)
+                           for c, v in conds)
+            rep.ob(R, "encode returns an empty encoding only when the target has the reference's length and content", (same_len and same_content) or slice_eq,
+                   detail="guards: %s" % [(fmt(c)[:90], v) for c, v in conds if v is not None][-3:], site=site_of(enc, s), key=R + " | early return")
+    rep.floor(R, n, 1, "returns of encode that precede every emitter")
+
+
 def pred_rules(F, rep, pid="C09"):
     """C09-PRED: encoder and decoder keep the same `predicted reference position`.  Match positions are coded
     relative to it and the '!' literal is decoded by looking it up, so both sides must move it identically:
@@ -271,6 +306,44 @@ def pred_rules(F, rep, pid="C09"):
             ok_m = _contains_all(rest, [pos_arg]) and sum(1 for x in rest if contains(x, fmres)) >= 3
     rep.ob(R, "encoder: after a match the predicted position is the coded position plus the whole match length", ok_m, detail=det,
            site=site_of(enc, mt), key=R + " | encoder match step")
+    # length elision ("match to the end"): the decoder then copies reference[pos ..] to the end of the reference, so
+    # the encoder may drop the length only if the coded position plus the whole match length is the reference length
+    from mirutil import linear, lin_sub
+    len_arg = mt["args"][2]
+    ll = len_arg["pl"]["l"] if len_arg["k"] in ("copy", "move") else None
+    for _ in range(6):      # the argument is a copy of the local that holds the Option
+        ds = [d for d in ex.defs.get(ll, []) if d[0] != "partial"] if ll is not None else []
+        if len(ds) == 1 and ds[0][0] == "rv" and ds[0][3]["k"] == "use" and ds[0][3]["op"]["k"] in ("copy", "move") and not ds[0][3]["op"]["pl"]["p"]:
+            ll = ds[0][3]["op"]["pl"]["l"]
+        else:
+            break
+    none_defs, some_vals = [], []
+    for d in ex.defs.get(ll, []) if ll is not None else []:
+        if d[0] != "rv":
+            continue
+        v = strip_tags(ex.rvalue(d[3]))
+        if isinstance(v, tuple) and v[0] == "agg" and v[1].endswith("Option::None"):
+            none_defs.append(d[1])
+        elif isinstance(v, tuple) and v[0] == "agg" and v[1].endswith("Option::Some"):
+            some_vals.append(dict(v[2]).get("0"))
+    ok_e = len(none_defs) == 1 and len(some_vals) == 1
+    det = "no single None/Some pair for the length argument"
+    if ok_e:
+        want = linear(pos_arg)
+        for k2, v2 in linear(some_vals[0]).items():
+            want[k2] = want.get(k2, 0) + v2
+        want = {k2: v2 for k2, v2 in lin_sub(want, linear(("field", ("param", "self"), "reference_len"))).items() if v2}
+        found = []
+        for c in dominating_conds(enc, none_defs[0], ex):
+            ce = strip_tags(c[0])
+            if cond_bool(c[1], c[2]) is True and isinstance(ce, tuple) and ce[0] == "bin" and ce[1] == "Eq":
+                dlin = {k2: v2 for k2, v2 in lin_sub(linear(ce[2]), linear(ce[3])).items() if v2}
+                found.append(dlin)
+        neg = {k2: -v2 for k2, v2 in want.items()}
+        ok_e = any(dl == want or dl == neg for dl in found)
+        det = "%d equality guard(s); none states (coded position + match length == reference length)" % len(found) if not ok_e else "guard states coded position + match length == reference_len"
+    rep.ob(R, "encoder: the match length is dropped only when the coded position plus the whole match length is the reference length (what the decoder will copy)", ok_e,
+           detail=det, site=site_of(enc, mt), key=R + " | encoder length elision")
     # backward extension: one step back per removed literal
     subs = [(bi, e) for bi, e, er in ups if isinstance(er, tuple) and er[0] == "bin" and er[1] == "Sub" and er[2] == ("self",)]
     pops = [bi for bi, t in enc.calls() if not t.get("indirect") and t["callee"].endswith("Vec::<T, A>::pop")]
